@@ -133,6 +133,8 @@ func plans() []sp.Plan {
 			Add2: true, MaxEvents: ctx.Pick(2, 3), MaxTracks: 2},
 		{Name: "small-alphabet-deeper", Cfgs: cfgs(true), AlName: "small", Deltas: []uint32{0, 128}, CloseDeltas: []uint32{0},
 			Add2: false, MaxEvents: ctx.Pick(3, 4), MaxTracks: 2},
+		{Name: "lookalike-payloads", Cfgs: cfgs(false), AlName: "lookalike", Deltas: []uint32{0, 1}, CloseDeltas: []uint32{0},
+			MaxEvents: ctx.Pick(3, 4), MaxTracks: 2},
 		{Name: "write-in-history", Cfgs: cfgs(false), AlName: "tiny", Deltas: []uint32{0, 1}, CloseDeltas: []uint32{0},
 			Write: true, MaxWrites: 2, MaxEvents: ctx.Pick(3, 4), MaxTracks: 3},
 		{Name: "from-read-then-extend", Cfgs: fromRead(cfgs(false)), AlName: "tiny", Deltas: []uint32{0, 1}, CloseDeltas: []uint32{0},
